@@ -1,5 +1,6 @@
 import OrdModel.Proofs.IndexInslocExample
 import OrdModel.Proofs.IndexLiftInsChain
+import OrdModel.Proofs.IndexLiftInsValid
 /-!
 # C04 — Inscriptions are never duplicated or dropped
 
@@ -146,6 +147,18 @@ theorem c04_reachable_tables (cfg : Cfg) (chain : List Block) (st : State) (evs 
   let i := (InsLift.run_chainInv cfg chain st evs hc.ok h).1
   ⟨i.tinv.nodup, i.seqKeys⟩
 
+/-- **Every valid chain**: C16's chain-validity predicate (`Valid.validChain`: inputs spend
+existing unspent outputs, coinbase first with the right shape, consecutive heights, distinct
+non-zero txids, envelope lists as the parser produces them, …) implies `InsChain` and `EnvChain`;
+so after every consensus-valid chain the index (if indexing succeeds) satisfies `InsPartitioned`
+and holds exactly one inscription per envelope of a non-coinbase transaction at or above the
+first inscription height. -/
+theorem c04_valid_chain (cfg : Cfg) (chain : List Block) (st : State) (evs : List Event)
+    (hv : Valid.validChain chain = true) (h : run cfg chain = .ok (st, evs)) :
+    InsPartitioned cfg st ∧ st.entries.length = InsLift.chainCount cfg chain :=
+  let hc := InsLift.insChain_of_validChain chain hv
+  ⟨c04_reachable cfg chain st evs hc.1 h, c04_reachable_count cfg chain st evs hc.1 hc.2 h⟩
+
 /-! Non-vacuity of the lift: an inscription revealed in block 1 (output `3:0`), moved in block 2
 (to `5:0`) and spent to fees in block 3 (the coinbase pays out less than the subsidy, so it lands
 on the null outpoint).  The chain satisfies `InsChain` and `EnvChain`, indexing succeeds, and one
@@ -181,5 +194,9 @@ example : InsLift.InsChain lcChain ∧ InsLift.EnvChain lcChain ∧
     simp only [lcChain, List.mem_cons, List.not_mem_nil, or_false] at hb
     rcases hb with rfl | rfl | rfl | rfl <;>
       (intro cb hcb; simp only [lcB0, lcB1, lcB2, lcB3, List.head?_cons, Option.some.injEq] at hcb; subst hcb; decide)
+
+/-- the example chain is consensus-valid in the sense of C16's predicate: the hypothesis of
+`c04_valid_chain` is satisfiable on a chain that creates, moves and loses an inscription -/
+example : Valid.validChain lcChain = true := by decide
 
 end Ord.Index.Insloc
